@@ -5,11 +5,11 @@ cd /verif
 if ! git -C /repo diff --quiet; then echo "/repo has uncommitted changes"; exit 2; fi
 git -C /repo apply /verif/seeded/$seed/patch.diff || { echo "patch does not apply"; exit 2; }
 start=$(date +%s)
-./check $cid $tier > /tmp/try_seed_$seed_$cid.log 2>&1; rc=$?
+./check $cid $tier > /tmp/try_seed_${seed}_${cid}.log 2>&1; rc=$?
 end=$(date +%s)
 git -C /repo checkout -- .
-viol=$(grep -c '^VIOLATION' /tmp/try_seed_$seed_$cid.log)
-first=$(grep -m1 'violation class' /tmp/try_seed_$seed_$cid.log | cut -c1-260)
+viol=$(grep -c '^VIOLATION' /tmp/try_seed_${seed}_${cid}.log)
+first=$(grep -m1 'violation class' /tmp/try_seed_${seed}_${cid}.log | cut -c1-260)
 echo "seed=$seed check=$cid tier=$tier rc=$rc violations=$viol time=$((end-start))s :: $first"
 python3 - "$seed" "$cid" "$tier" "$rc" "$first" <<'PY'
 import json,sys
